@@ -1,4 +1,5 @@
 import Rio.Proofs.ScanOfPack
+import Rio.Proofs.ListingOfTree
 /-!
 # C02 (continued) — pack and scan report the same wareID, and it is the specified one
 
@@ -39,5 +40,60 @@ theorem ex_wf : WFRoot exTree := by
 example (H : Bytes → Bytes) :
     unpackTar H nilOps 0 0 losslessUnpack (hdrsOf [exRoot, exFile]) .eof () = .ok ((), specId H exTree, specId H exTree) :=
   (C02_scan_of_pack H 0 0 [exRoot, exFile] (by simp) ex_listing exTree ex_wf (by simp [exTree, flatten, flattenF])).2
+
+/-- **The same for every real fileset, with no hypothesis left about the listing**: a fileset given by component names
+    (`LTree`: components normal — non-empty, no `/`, not `.` or `..` —, only directories have children, siblings in key
+    order) whose attributes lie in the tar format's domain (`AttrsOK`: 12-bit permissions, 32-bit ids, whole-second
+    mtimes, no sockets / hard links, content hashes on files only).  Its pre-order listing — a directory before what it
+    contains, the order `fs.Walk` delivers — packs to `specId`, and the scan of the headers that pack wrote reports
+    `specId` twice.  (`Rio/Proofs/ListingOfTree.lean`: the pre-order listing of such a tree is `ListingOK`.) -/
+theorem C02_scan_of_pack_fileset (H : Bytes → Bytes) (mu mg : Nat) (m : Meta) (ch : Bytes) (kids : LForest)
+    (hshape : (m.kind = .dir ∧ LWFF kids) ∨ (m.kind ≠ .dir ∧ kids = .nil)) (hattr : AttrsOK m ch) (hgood : LGoodF kids) :
+    packId H .tar losslessPackF ((flatten (toRoot m ch kids)).map entOf) = .ok (specId H (toRoot m ch kids)) ∧
+    unpackTar H nilOps mu mg losslessUnpack (hdrsOf ((flatten (toRoot m ch kids)).map entOf)) .eof () =
+      .ok ((), specId H (toRoot m ch kids), specId H (toRoot m ch kids)) :=
+  scan_of_pack_fileset H mu mg m ch kids hshape hattr hgood
+
+/-! a fileset that meets the hypotheses: `./`, `./a` (file), `./d/`, `./d/x` (symlink) (test) -/
+
+def exM (k : Kind) (p : Nat) : Meta :=
+  { name := ⟨[], 0⟩, kind := k, perms := p, uid := 1000, gid := 1000, size := 0, linkname := [], devmajor := 0, devminor := 0, mtime := ⟨9, 0⟩, xattrs := [] }
+def exKids : LForest :=
+  .cons (.node [0x61] (exM .file 0o644) [7, 7] .nil)
+    (.cons (.node [0x64] (exM .dir 0o755) [] (.cons (.node [0x78] (exM .symlink 0o777) [] .nil) .nil)) .nil)
+
+theorem exN (b : UInt8) (h1 : b ≠ dot) (h2 : b ≠ slash) : Normal [b] := by
+  refine ⟨by simp, ?_, ?_, ?_⟩
+  · intro e; injection e with e; exact h1 e
+  · intro e; simp [dd] at e
+  · simp; exact fun e => h2 e.symm
+
+theorem exAttrs (k : Kind) (p : Nat) (ch : Bytes) (hp : p < 4096) (hk : k ≠ .socket ∧ k ≠ .invalid ∧ k ≠ .hardlink)
+    (hc : k ≠ .file → ch = []) : AttrsOK (exM k p) ch :=
+  ⟨hp, by simp [exM], by simp [exM], hk, rfl, hc⟩
+
+theorem ex_lwff : LWFF exKids := by
+  unfold exKids
+  simp only [LWFF, LWF]
+  refine ⟨⟨exN _ (by decide) (by decide), fun h => ?_, trivial⟩,
+    ⟨⟨exN _ (by decide) (by decide), fun h => absurd rfl h, ⟨exN _ (by decide) (by decide), fun h => ?_, trivial⟩, trivial, by simp [LForest.skeys]⟩, trivial, by simp [LForest.skeys]⟩, ?_⟩
+  · trivial
+  · trivial
+  · intro k hk
+    simp only [LForest.skeys, LTree.skey, exM, List.mem_cons, List.not_mem_nil, or_false] at hk
+    subst hk
+    decide
+
+theorem ex_lgood : LGoodF exKids := by
+  unfold exKids
+  simp only [LGoodF, LGood]
+  exact ⟨⟨exAttrs _ _ _ (by decide) (by decide) (fun h => absurd rfl h), trivial⟩,
+    ⟨exAttrs _ _ _ (by decide) (by decide) (fun _ => rfl), ⟨exAttrs _ _ _ (by decide) (by decide) (fun _ => rfl), trivial⟩, trivial⟩, trivial⟩
+
+example (H : Bytes → Bytes) :
+    packId H .tar losslessPackF ((flatten (toRoot (exM .dir 0o755) [] exKids)).map entOf) =
+      .ok (specId H (toRoot (exM .dir 0o755) [] exKids)) :=
+  (C02_scan_of_pack_fileset H 0 0 (exM .dir 0o755) [] exKids (Or.inl ⟨rfl, ex_lwff⟩)
+    (exAttrs _ _ _ (by decide) (by decide) (fun _ => rfl)) ex_lgood).1
 
 end Rio
